@@ -17,10 +17,12 @@ package pql
 import (
 	"bytes"
 	"fmt"
+	"math"
 	"sort"
 	"strconv"
 	"strings"
 	"time"
+	"unicode/utf8"
 )
 
 // Query represents a PQL query.
@@ -84,14 +86,28 @@ func (q *Query) endConditional() {
 	if len(q.conditional) != 5 {
 		panic(fmt.Sprintf("conditional of wrong length: %#v", q.conditional))
 	}
-	low, _ := strconv.ParseInt(q.conditional[0], 10, 64)
+	low, err := strconv.ParseInt(q.conditional[0], 10, 64)
+	if err != nil {
+		panic(fmt.Sprintf("%s: %s", intOutOfRangeError, err))
+	}
 	field := q.conditional[2]
-	high, _ := strconv.ParseInt(q.conditional[4], 10, 64)
+	high, err := strconv.ParseInt(q.conditional[4], 10, 64)
+	if err != nil {
+		panic(fmt.Sprintf("%s: %s", intOutOfRangeError, err))
+	}
 
+	// Strict bounds are stored as inclusive ones; a strict bound on the edge
+	// of the int64 range has no inclusive equivalent.
 	if q.conditional[1] == "<" {
+		if low == math.MaxInt64 {
+			panic(fmt.Sprintf("%s: %s < %s", intOutOfRangeError, q.conditional[0], field))
+		}
 		low++
 	}
 	if q.conditional[3] == "<" {
+		if high == math.MinInt64 {
+			panic(fmt.Sprintf("%s: %s < %s", intOutOfRangeError, field, q.conditional[4]))
+		}
 		high--
 	}
 
@@ -129,8 +145,16 @@ func (q *Query) addVal(val interface{}) {
 		panic(fmt.Sprintf("addVal called with '%s' when lastField is empty", val))
 	}
 	if elem.inList {
-		list := elem.call.Args[elem.lastField].([]interface{})
-		elem.call.Args[elem.lastField] = append(list, val)
+		if elem.lastCond != ILLEGAL {
+			list := elem.call.Args[elem.lastField].(*Condition).Value.([]interface{})
+			elem.call.Args[elem.lastField] = &Condition{
+				Op:    elem.lastCond,
+				Value: append(list, val),
+			}
+		} else {
+			list := elem.call.Args[elem.lastField].([]interface{})
+			elem.call.Args[elem.lastField] = append(list, val)
+		}
 		return
 	}
 	if elem.lastCond != ILLEGAL {
@@ -579,4 +603,53 @@ func joinUint64Slice(a []uint64) string {
 		other[i] = strconv.FormatUint(a[i], 10)
 	}
 	return "[" + strings.Join(other, ",") + "]"
+}
+
+// unquoteDouble returns the value denoted by the inside of a double-quoted
+// literal. Escape sequences are those of Go string literals, which is what
+// formatValue writes; unlike strconv.Unquote a raw newline is accepted, as in
+// the grammar. An invalid escape sequence is a parse error.
+func unquoteDouble(s string) string {
+	if !strings.Contains(s, `\`) {
+		return s
+	}
+	buf := make([]byte, 0, len(s))
+	var tmp [utf8.UTFMax]byte
+	for rest := s; len(rest) > 0; {
+		c, multibyte, tail, err := strconv.UnquoteChar(rest, '"')
+		if err != nil {
+			panic(fmt.Sprintf("%s: \"%s\"", invalidStringError, s))
+		}
+		rest = tail
+		if c < utf8.RuneSelf || !multibyte {
+			buf = append(buf, byte(c))
+		} else {
+			buf = append(buf, tmp[:utf8.EncodeRune(tmp[:], c)]...)
+		}
+	}
+	return string(buf)
+}
+
+// unquoteSingle returns the value denoted by the inside of a single-quoted
+// literal: \' is a quote and \\ a backslash, everything else is verbatim.
+func unquoteSingle(s string) string {
+	if !strings.Contains(s, `\`) {
+		return s
+	}
+	buf := make([]byte, 0, len(s))
+	for i := 0; i < len(s); i++ {
+		if s[i] == '\\' && i+1 < len(s) && (s[i+1] == '\'' || s[i+1] == '\\') {
+			i++
+		}
+		buf = append(buf, s[i])
+	}
+	return string(buf)
+}
+
+// trimQuotes removes the quotes around a quoted timestamp.
+func trimQuotes(s string) string {
+	if len(s) >= 2 && (s[0] == '"' || s[0] == '\'') && s[len(s)-1] == s[0] {
+		return s[1 : len(s)-1]
+	}
+	return s
 }
